@@ -283,9 +283,27 @@ def _shadow_validate(mod, cparams, sctx, S, res):
 
 
 # ======================================================================== pool
+def _kill_tree(p):
+    """Kill a pool worker together with the solver children it has forked (the worker leads its own process group);
+    an orphaned solver child would otherwise run on and keep the parent's pipes open."""
+    import signal
+    try:
+        os.killpg(p.pid, signal.SIGKILL)
+    except (ProcessLookupError, PermissionError, OSError):
+        pass
+    try:
+        p.kill()
+    except Exception:
+        pass
+
+
 def _worker_main(conn):
     import signal
     signal.signal(signal.SIGINT, signal.SIG_IGN)
+    try:
+        os.setpgid(0, 0)            # own process group: see _kill_tree
+    except OSError:
+        pass
     try:
         import resource
         lim = int(os.environ.get('VERIF_WORKER_MEM_GB', '6')) << 30
@@ -344,7 +362,7 @@ class Pool(object):
                             results[ti] = conn.recv()
                         except (EOFError, OSError):
                             results[ti] = ('err', 'worker died')
-                            p.kill()
+                            _kill_tree(p)
                             w[:] = self._spawn()
                         else:
                             w[2] = None
@@ -358,7 +376,7 @@ class Pool(object):
                         done += 1
                         progressed = True
                     elif time.time() - t0 > timeout_s:
-                        p.kill()
+                        _kill_tree(p)
                         p.join()
                         results[ti] = ('timeout', 'configuration exceeded %ds' % timeout_s)
                         w[:] = self._spawn()
@@ -375,7 +393,7 @@ class Pool(object):
             for p, conn, _, _ in workers:
                 p.join(timeout=1)
                 if p.is_alive():
-                    p.kill()
+                    _kill_tree(p)
         return results
 
 
